@@ -404,6 +404,8 @@ def _guarded_index(b, site):
         return "range end is min(.., len)"
     if "RangeFrom{start:" in si and "Iterator::count(Iterator::take_while(" in si:
         return "range start counts a prefix of the same array"
+    if "RangeFrom{start: Option::unwrap_or(" in si and "::position(" in si and sb_ in si and ("len(%s)" % sb_ in si or si.rstrip("})").endswith(", 32")):
+        return "range start is a position inside the same array, or its length"
     # fixed array sliced by ..end: unreachable once `end > K` (K ≤ N) is forced true
     n_arr = _array_len(b, base)
     if n_arr is not None and idx[0] == "agg" and "RangeTo" in str(idx[1]):
